@@ -64,7 +64,13 @@ func queryTimeFromString(t string) (time.Time, error) {
 
 func (t *BleveQueryTime) MarshalJSON() ([]byte, error) {
 	tt := time.Time(t.Time)
-	return []byte("\"" + tt.Format(QueryDateTimeFormat) + "\""), nil
+	format := QueryDateTimeFormat
+	if format == time.RFC3339 && tt.Nanosecond() != 0 {
+		// RFC3339 drops fractional seconds, keep them so that the
+		// value parses back to the same instant
+		format = time.RFC3339Nano
+	}
+	return []byte("\"" + tt.Format(format) + "\""), nil
 }
 
 func (t *BleveQueryTime) UnmarshalJSON(data []byte) error {
